@@ -731,6 +731,10 @@ func (e *SpecEnv) call(n *ECall) SV {
 				return e.heldCall(n, false)
 			case "heldR":
 				return e.heldCall(n, true)
+			case "sameArray":
+				a := e.val(e.tr(n.Args[0]))
+				b := e.val(e.tr(n.Args[1]))
+				return SV{T: Eq(SlcArr(a), SlcArr(b)), Ty: tBool}
 			case "sameSlice":
 				a := e.val(e.tr(n.Args[0]))
 				b := e.val(e.tr(n.Args[1]))
